@@ -950,7 +950,7 @@ section — and a processing instruction whose target is no name or is `xml` in 
 `xml-illformed-accepted:pi-target`, fixed) are refused with `DeError::InvalidContent` as well (since 5946f21; before, it passed: finding
 `xml-illformed-accepted:cdata-end`, fixed). A start tag or empty-element tag whose attributes quick-xml's
 iterator refuses — no `=`, no value, a value that is not quoted or not closed, a key written twice — is refused with
-`DeError::InvalidXml` (`check_attributes`, since ab8d746; before, the attributes were looked at only by
+`DeError::InvalidXml` (`check_attributes`, since 2bbb69d; before, the attributes were looked at only by
 `Deserializer::attribute`: finding `xml-illformed-accepted:attribute-syntax`, fixed). -/
 def deEventsAt : Nat → List QEv → List Ev
   | _, [] => []
